@@ -630,21 +630,20 @@ theorem error_leaves_state (cfg : Cfg) (s : State) (op : Op) (e : Err) (h : (ste
 /-- `ifelse` on a READ-ONLY array raises as soon as `choice` selects one of its elements: the loop body uses
     the non-const `(*this)[i]`.  (Python-list semantics: reading never fails.) -/
 theorem ifelse_readonly_quirk :
-    (run Cfg.asWritten State.empty [.alloc [1, 2], .makeReadOnly 0, .alloc [0, 1], .ifelseScalar 0 1 9]).2.getLast?
-      = some (.error .readOnly) ∧
+    (run Cfg.asWritten State.empty witnessIfelseReadOnly).2.getLast? = some (.error .readOnly) ∧
     (run Cfg.asWritten State.empty [.alloc [1, 2], .makeReadOnly 0, .alloc [0, 0], .ifelseScalar 0 1 9]).2.getLast?
       = some (.ok (.newView 2)) ∧
-    (run Cfg.repaired State.empty [.alloc [1, 2], .makeReadOnly 0, .alloc [0, 1], .ifelseScalar 0 1 9]).2.getLast?
-      = some (.ok (.newView 2)) := by decide
+    (run Cfg.repaired State.empty witnessIfelseReadOnly).2.getLast? = some (.ok (.newView 2)) := by decide
 
 /-- `m[mask2] = x` on a masked reference `m` ignores `mask2` altogether (every referenced element is set) -/
 theorem setitem_scalar_mask_on_masked_ignores_mask :
-    (exec Cfg.asWritten State.empty
-      [.alloc [10, 11, 12], .alloc [1, 1, 0], .getmask 0 1, .alloc [1, 0], .setScalarMask 2 3 7]).heap[0]?
-      = some [7, 7, 12] ∧
-    (exec Cfg.repaired State.empty
-      [.alloc [10, 11, 12], .alloc [1, 1, 0], .getmask 0 1, .alloc [1, 0], .setScalarMask 2 3 7]).heap[0]?
-      = some [7, 11, 12] := by decide
+    (exec Cfg.asWritten State.empty witnessMaskOnMasked).heap[0]? = some [7, 7, 12] ∧
+    (exec Cfg.repaired State.empty witnessMaskOnMasked).heap[0]? = some [7, 11, 12] := by decide
+
+/-- `IntArray(0)[::-1]`: raises as written, an empty array in the repaired variant (and in Python) -/
+theorem slice_empty_backward_witness :
+    (run Cfg.asWritten State.empty witnessEmptyBackward).2.getLast? = some (.error .domainError) ∧
+    (run Cfg.repaired State.empty witnessEmptyBackward).2.getLast? = some (.ok (.newView 1)) := by decide
 
 /-! ## Converting constructor -/
 
